@@ -313,7 +313,7 @@ def gen_hist(rng, n):
         dim = rng.choice([1, 2, 2, 3, 4])
         k = rng.choice([2, 3, 4])
         yield {"dim": dim, "a": fball(rng, dim, [k], 0.95), "b": fball(rng, dim, [k], 0.95),
-               "steps": [rng.choice(["read", "setitem", "setslice", "buffer", "dup_edit", "sel_edit", "distance"])
+               "steps": [rng.choice(["read", "setitem", "setslice", "buffer", "dup_edit", "sel_edit", "distance", "mutate_returned", "set", "coords_set"])
                          for _ in range(rng.randint(3, 7))],
                "models": [rng.choice(MODELS) for _ in range(8)], "idx": [rng.randrange(k) for _ in range(8)]}
 
@@ -338,6 +338,26 @@ def run_hist(inp):
             P[i] = H.Point(b[i].copy(), model="klein"); truth[i] = b[i]
         elif st == "setslice":
             P[...] = H.Point(b.copy(), model="klein"); truth = b.copy()
+        elif st == "mutate_returned":
+            # G2: whatever coords() hands out belongs to the caller; scribbling over it must not move the point
+            c = P.coords(m)
+            if m in ("klein", "poincare", "halfspace"):      # (projective/hyperboloid coords are the stored representative itself;
+                try:                                         #  the library documents no copy there, so only positive rescaling is tried)
+                    c[...] = 0.123
+                except (ValueError, TypeError):
+                    pass
+            else:
+                try:
+                    c *= 3.0
+                except (ValueError, TypeError):
+                    pass
+        elif st == "set":
+            # replace all data through the public setter (a cache keyed on object identity would go stale here)
+            P.set(np.concatenate([np.ones((len(b), 1)), b], axis=-1) * 2.5); truth = b.copy()
+        elif st == "coords_set":
+            # coords(model, data) is the documented get-AND-set entry point
+            src = H.Point(b.copy(), model="klein")
+            P.coords(m, np.array(src.coords(m), dtype=float)); truth = b.copy()
         elif st == "buffer":
             buf = np.array(P.coords(m), dtype=float)
             first = H.Point(buf, model=m)
@@ -364,6 +384,12 @@ def run_hist(inp):
             worst = max(worst, err(k2, truth))
             if worst > 1e-6:
                 return {"step": j, "op": st, "model": mm, "err": worst, "who": "P"}
+        # G1: distances reported by the object with a history equal those of a fresh object with the same data
+        fresh = H.Point(truth.copy(), model="klein")
+        ref = H.Point(b.copy(), model="klein")
+        d1 = np.asarray(P.distance(ref), dtype=float); d2 = np.asarray(fresh.distance(ref), dtype=float)
+        if d1.shape != d2.shape or not finite(d1) or err(d1, d2) > 1e-6:
+            return {"step": j, "op": st, "model": "distance", "err": float(err(d1, d2)) if d1.shape == d2.shape else float("inf"), "who": "P vs fresh"}
         for obj, tr in others:
             k2 = _klein_of(obj)
             if k2.shape != tr.shape or not finite(k2) or err(k2, tr) > 1e-6:
